@@ -267,6 +267,11 @@ cdef class cyQM_template(cyQMBase):
 
         return self.variables.at(-1)
 
+    def clear(self):
+        # not through `self.base`: QuadraticModelBase::clear() is not virtual and would keep the varinfo
+        self.cppqm.clear()
+        self.variables._clear()
+
     def change_vartype(self, vartype, v):
         vartype = as_vartype(vartype, extended=True)
         cdef Py_ssize_t vi = self.variables.index(v)
